@@ -2,6 +2,7 @@ import ProductMD.Proofs.C08Images
 import ProductMD.Proofs.C08CI
 import ProductMD.Proofs.C08Ini
 import ProductMD.Proofs.C08TreeInfo
+import ProductMD.Proofs.C08CIRepeat
 import ProductMD.Model.DiscInfo
 import ProductMD.Model.ManifestIO
 /-!
@@ -299,6 +300,27 @@ theorem C08_perm_composeinfo_ok (x y : CI.ComposeInfo) (h : CI.Same x y) (hk : C
   cases hd : dumps x with
   | error e => rw [hd] at hx; cases hx
   | ok b => rw [C08_perm_composeinfo x y h hk b hd]; rfl
+
+/-! ## composeinfo: repeated dumps -/
+
+/-- **C08 repeat (composeinfo).**  `dumps : State → State × Bytes` (`CI.dumpsSt`, `Model/ComposeInfoState.lean`: the writer
+threaded through the object in the code's order, with the two mutations a dump makes - `header.version` set to the current
+version, `release.is_layered = True` on every layered-product variant it reaches - also when it fails half-way).
+The second dump writes what the first wrote (or raises what it raised). -/
+theorem C08_repeat_composeinfo (s : CI.CIState) : (CI.dumpsSt (CI.dumpsSt s).1).2 = (CI.dumpsSt s).2 := by
+  rw [CI.dumpsSt_snd, CI.dumpsSt_snd]
+  obtain ⟨vs', e, ht, _⟩ := CI.dumpsSt_state s
+  rw [e]
+  exact CI.dumps_touched s.ci ht
+
+/-- the stateful writer produces the text of the pure one (so every `C08_perm_composeinfo*` statement is about it too), and
+the object it leaves behind differs from the original only in `header.version` (old or current) and in forced
+`is_layered` flags of layered-product variants (`CI.Touched`) -/
+theorem C08_repeat_composeinfo_state (s : CI.CIState) :
+    (CI.dumpsSt s).2 = CI.dumps s.ci ∧
+    ∃ vs', (CI.dumpsSt s).1.ci = { s.ci with variants := vs' } ∧ CI.TouchedL s.ci.variants vs' ∧
+      ((CI.dumpsSt s).1.version = s.version ∨ (CI.dumpsSt s).1.version = CI.currentVersion) :=
+  ⟨CI.dumpsSt_snd s, CI.dumpsSt_state s⟩
 
 /-! ## treeinfo: the INI layer and the comma lists -/
 
